@@ -28,6 +28,7 @@ type Val struct {
 	Body string
 	CF   string
 	CFI  bool // the /Crypt name and its parameters are indirect first elements of the arrays
+	P    *Val // streams as observed: the references reachable through /DecodeParms (CopierRef)
 }
 
 const genBase = 100000
@@ -48,6 +49,11 @@ func (v Val) MarshalJSON() ([]byte, error) {
 		if v.CFI {
 			m["cfi"] = true
 		}
+		if v.P != nil {
+			m["p"] = *v.P
+		} else {
+			m["p"] = nul()
+		}
 	}
 	return json.Marshal(m)
 }
@@ -62,11 +68,12 @@ func (v *Val) UnmarshalJSON(data []byte) error {
 		Body string   `json:"body"`
 		CF   string   `json:"cf"`
 		CFI  bool     `json:"cfi"`
+		P    *Val     `json:"p"`
 	}
 	if err := json.Unmarshal(data, &raw); err != nil {
 		return err
 	}
-	*v = Val{T: raw.T, A: raw.A, N: raw.N, E: raw.E, K: raw.K, Body: raw.Body, CF: raw.CF, CFI: raw.CFI}
+	*v = Val{T: raw.T, A: raw.A, N: raw.N, E: raw.E, K: raw.K, Body: raw.Body, CF: raw.CF, CFI: raw.CFI, P: raw.P}
 	return nil
 }
 
@@ -135,6 +142,9 @@ func (v Val) refs(out []int) []int {
 	case "a", "d", "st":
 		for _, e := range v.E {
 			out = e.refs(out)
+		}
+		if v.T == "st" && v.P != nil {
+			out = v.P.refs(out)
 		}
 	}
 	return out
@@ -359,8 +369,10 @@ func fromObj(v obj.Value) Val {
 
 // fromStreamDict converts the dictionary of a stream: /Length, /Filter and
 // /DecodeParms describe one encoding of the data and are not compared.
-func fromStreamDict(d obj.Dict, body, cf string) Val {
+func fromStreamDict(d obj.Dict, body, cf string, resolve func(obj.Ref) (obj.Value, bool)) Val {
 	out := Val{T: "st", Body: body, CF: cf}
+	p := parmRefs(d["DecodeParms"], resolve)
+	out.P = &p
 	for _, k := range d.Keys() {
 		if specKeys[k] {
 			continue
@@ -374,4 +386,81 @@ func fromStreamDict(d obj.Dict, body, cf string) Val {
 func bodyID(data []byte) string {
 	h := sha256.Sum256(data)
 	return fmt.Sprintf("%d:%s", len(data), hex.EncodeToString(h[:6]))
+}
+
+// parmRefs is CopierRef's view of /DecodeParms: the top level and the array
+// elements resolved, everything that holds no reference replaced by null.
+func parmRefs(v obj.Value, resolve func(obj.Ref) (obj.Value, bool)) Val {
+	res := func(v obj.Value) obj.Value {
+		for i := 0; i < 16; i++ {
+			r, ok := v.(obj.Ref)
+			if !ok {
+				return v
+			}
+			if resolve == nil {
+				return obj.Null{}
+			}
+			w, ok := resolve(r)
+			if !ok {
+				return obj.Null{}
+			}
+			v = w
+		}
+		return obj.Null{}
+	}
+	if v == nil {
+		return nul()
+	}
+	top := res(v)
+	if arr, ok := top.(obj.Array); ok {
+		out := make(obj.Array, len(arr))
+		for i, e := range arr {
+			out[i] = res(e)
+		}
+		top = out
+	}
+	if _, isStream := top.(*obj.Stream); isStream {
+		return nul()
+	}
+	return refSkeleton(fromObjLoose(top))
+}
+
+// fromObjLoose is fromObj for values that may hold streams (ignored).
+func fromObjLoose(v obj.Value) Val {
+	switch x := v.(type) {
+	case *obj.Stream:
+		return nul()
+	case obj.Array:
+		out := Val{T: "a", E: make([]Val, len(x))}
+		for i, e := range x {
+			out.E[i] = fromObjLoose(e)
+		}
+		return out
+	case obj.Dict:
+		out := Val{T: "d"}
+		for _, k := range x.Keys() {
+			out.K = append(out.K, string(k))
+			out.E = append(out.E, fromObjLoose(x[k]))
+		}
+		return out
+	}
+	return fromObj(v)
+}
+
+func refSkeleton(v Val) Val {
+	switch v.T {
+	case "r":
+		return v
+	case "a", "d":
+		w := Val{T: v.T, K: v.K, E: make([]Val, len(v.E))}
+		any := false
+		for i, e := range v.E {
+			w.E[i] = refSkeleton(e)
+			any = any || w.E[i].T != "z"
+		}
+		if any {
+			return w
+		}
+	}
+	return nul()
 }
